@@ -1172,6 +1172,230 @@ def pbf_pairing_rules(fb, R, em, dc):
             pair_check(R, key, e.site, 'pbf:%s@%s' % (short(e.msg).split('::')[-1], spec.field), g, s, c.site)
 
 
+# ================================================================================================ delta coder widths
+
+INT_WIDTH = {'char': (8, True), 'signed char': (8, True), 'unsigned char': (8, False), 'short': (16, True), 'unsigned short': (16, False),
+             'int': (32, True), 'unsigned int': (32, False), 'long': (64, True), 'unsigned long': (64, False),
+             'long long': (64, True), 'unsigned long long': (64, False), 'bool': (1, False)}
+PROTO_WIDTH = {'sint64': 64, 'int64': 64, 'uint64': 64, 'sint32': 32, 'int32': 32, 'uint32': 32}
+
+
+def _int_type(t):
+    if t is None:
+        return None
+    t = t.replace('const ', '').strip().rstrip('&').strip()
+    return INT_WIDTH.get(t)
+
+
+def _coder_types(fb, fn, call):
+    """(value type, delta type) of the DeltaEncode / DeltaDecode object an update() call is made on, from the instantiated
+    update() signature (Encode: TDelta update(TValue); Decode: TValue update(TDelta))."""
+    enc = call.get('q') == codec.DELTA_ENC
+    for g in fb.by_usr.get(call.get('u'), []):
+        if g.params:
+            a, r = g.params[0]['tC'], g.retC
+            return (a, r) if enc else (r, a)
+    # body not in the fact base: template arguments of the class spelling (TDelta defaults to int64_t)
+    ta = codec.template_args(call.get('rclsT'))
+    if ta:
+        return (ta[0], ta[1] if len(ta) > 1 else 'long')
+    return (None, None)
+
+
+def delta_width_rules(fb, R, em, dc):
+    """Every delta coded field: the delta type of the encoder, and the delta and accumulator types of the decoder, are signed and at
+    least as wide as the proto field type (sint64 -> 64 bit), so that a difference the proto type can carry is neither computed nor
+    summed up in fewer bits on one side."""
+    for e in em:
+        spec = codec.pbf_spec(fb, e.msg, e.num)
+        if spec is None or spec.ptype not in PROTO_WIDTH:
+            continue
+        need = PROTO_WIDTH[spec.ptype]
+        for (f, v) in e.values:
+            if not codec.is_delta_encoded(f, v):
+                continue
+            call = codec.through_locals(f, v)
+            vt, dt = _coder_types(fb, f, call)
+            d = _int_type(dt)
+            if d is None:
+                R.broken('cannot determine the delta type of the DeltaEncode feeding %s at %s (%s)' % (spec.key, f.loc(v), dt))
+                continue
+            R.check(d[1] and d[0] >= need, 'pbf-delta-width', '%s#writer' % spec.key, f.loc(v),
+                    '%s is a %s field but its DeltaEncode<%s, %s> computes the difference in a %s%d-bit type: differences of %d bits are truncated '
+                    'while the decoder sums them up in 64 bits' % (spec.key, spec.ptype, vt, dt, '' if d[1] else 'unsigned ', d[0], need),
+                    detail={'value_type': vt, 'delta_type': dt})
+    for c in dc:
+        spec = codec.pbf_spec(fb, c.msg, c.num)
+        if spec is None or spec.ptype not in PROTO_WIDTH:
+            continue
+        need = PROTO_WIDTH[spec.ptype]
+        nodes = [(x.fn, x.node) for x in c.packed if x.delta]
+        if c.scalar is not None and codec.enclosing_call(c.fn, c.scalar_node, codec.DELTA_DEC) is not None:
+            nodes.append((c.fn, c.scalar_node))
+        for (f, nid) in nodes:
+            call = codec.enclosing_call(f, nid, codec.DELTA_DEC)
+            vt, dt = _coder_types(fb, f, call)
+            d, v = _int_type(dt), _int_type(vt)
+            if d is None or v is None:
+                R.broken('cannot determine the types of the DeltaDecode consuming %s at %s (%s, %s)' % (spec.key, f.loc(nid), vt, dt))
+                continue
+            R.check(d[1] and d[0] >= need and v[0] >= need, 'pbf-delta-width', '%s#%s' % (spec.key, c.fn.q), f.loc(nid),
+                    '%s is a %s field but %s sums the differences up in DeltaDecode<%s, %s> (%d-bit accumulator, %s%d-bit delta)'
+                    % (spec.key, spec.ptype, c.fn.q, vt, dt, v[0], '' if d[1] else 'unsigned ', d[0]),
+                    detail={'value_type': vt, 'delta_type': dt})
+
+
+# ================================================================================================ Writer: order of pending items
+
+def writer_order_rules(fb, R):
+    """osmium::io::Writer keeps items handed over one by one in an internal buffer.  Order is preserved only if that pending
+    buffer reaches the output format before anything that was handed over later."""
+    W = 'osmium::io::Writer'
+    WB = NS + 'OutputFormat::write_buffer'
+    WE = NS + 'OutputFormat::write_end'
+    rec = fb.record(W)
+    if rec is None:
+        R.broken('record %s not found' % W)
+        return
+    pend = [f for f in rec.fields if f['tC'] == 'osmium::memory::Buffer']
+    if len(pend) != 1:
+        R.broken('%s: expected exactly one osmium::memory::Buffer member (the pending buffer), found %d' % (W, len(pend)))
+        return
+    PQ = pend[0]['q']
+    methods = [f for f in fb.functions if f.has_cfg and f.cls == W and not f.is_lambda]
+    bodies = []
+    for m in methods:
+        bodies.append((m, m))
+        for g in fb.lambdas_in(m):
+            bodies.append((g, m))
+    if not methods:
+        R.broken('no body of %s found' % W)
+        return
+
+    def is_pending(f, nid):
+        r = f.root_var(nid)
+        return r is not None and r[0] == 'field' and r[1] == PQ
+
+    def locals_of(f):
+        return {v['d'] for n in f.all_nodes() if n.get('k') == 'decl' for v in n['vars']}
+
+    # ---- classify the methods that talk to the output format
+    flushers = set()      # usr of functions that hand the pending buffer to write_buffer
+    forwarders = {}       # usr -> index of the Buffer parameter handed to write_buffer
+    for m in methods:
+        pidx = {p['d']: i for i, p in enumerate(m.params)}
+        for c in m.all_nodes():
+            if c.get('k') != 'call' or c.get('q') != WB or not c.get('args'):
+                continue
+            r = m.root_var(c['args'][0])
+            if r is None:
+                continue
+            if r[0] == 'field' and r[1] == PQ:
+                flushers.add(m.usr)
+            elif r[0] == 'var' and r[1] in pidx:
+                forwarders[m.usr] = pidx[r[1]]
+            elif r[0] == 'var':
+                # `swap(m_buffer, local); write_buffer(std::move(local))`
+                for s in m.all_nodes():
+                    if s.get('k') == 'call' and s.get('q', s.get('name', '')).rsplit('::', 1)[-1] == 'swap' and len(s.get('args', [])) == 2:
+                        roots = [m.root_var(a) for a in s['args']]
+                        if any(x is not None and x[0] == 'field' and x[1] == PQ for x in roots) and any(x is not None and x[0] == 'var' and x[1] == r[1] for x in roots):
+                            if m.elem_dominates(s['id'], c['id']):
+                                flushers.add(m.usr)
+    if not flushers:
+        R.broken('%s: no function hands the pending buffer %s to OutputFormat::write_buffer (do_flush shape not recognised)' % (W, pend[0]['name']))
+        return
+
+    def flush_sites(f):
+        out = []
+        for c in f.all_nodes():
+            if c.get('k') != 'call' or c['id'] not in f.positions():
+                continue
+            if c.get('u') in flushers:
+                out.append(c['id'])
+            elif c.get('q') == WB and c.get('args') and is_pending(f, c['args'][0]):
+                out.append(c['id'])
+            elif c.get('u') in forwarders and len(c.get('args', [])) > forwarders[c['u']] and is_pending(f, c['args'][forwarders[c['u']]]):
+                out.append(c['id'])
+        return out
+
+    def dominated_by_flush(f, nid):
+        sites = flush_sites(f)
+        if any(f.elem_dominates(s, nid) for s in sites):
+            return True
+        # inside a catch handler (not reachable from the entry): no path from the handler's entry to nid that avoids a flush
+        pos = f.positions()
+        if nid in pos:
+            for cb in f.catch_entry_blocks():
+                if pos[nid][0] in f.reachable_blocks(cb):
+                    ids = set(sites)
+                    if path_search(f, cb, lambda x: x == nid, lambda x: x in ids, from_block_start=True) is None:
+                        return True
+        return False
+
+    # ---- W1: a buffer supplied by the caller goes out only after the pending items
+    for (f, m) in bodies:
+        if f.usr in forwarders and f is m:
+            continue   # the forwarder itself; the obligation is on its callers
+        own = locals_of(f)
+        for c in f.all_nodes():
+            if c.get('k') != 'call' or c['id'] not in f.positions():
+                continue
+            arg = None
+            if c.get('q') == WB and c.get('args'):
+                arg = c['args'][0]
+            elif c.get('u') in forwarders and len(c.get('args', [])) > forwarders[c['u']]:
+                arg = c['args'][forwarders[c['u']]]
+            if arg is None:
+                continue
+            r = f.root_var(arg)
+            if r is None or r[0] != 'var' or r[1] in own:
+                continue   # the pending buffer itself or a local (flusher shape)
+            R.check(dominated_by_flush(f, c['id']), 'writer-flush-before-foreign-buffer', '%s#%s' % (m.q, r[2]), f.loc(c['id']),
+                    '%s hands the caller\'s buffer `%s` to the output format without first flushing the items pending in %s: objects written '
+                    'earlier with writer(item) come out after it' % (m.q, r[2], pend[0]['name']))
+
+    # ---- W2: an item that did not fit is appended only after the full buffer went out
+    for (f, m) in bodies:
+        for c in f.all_nodes():
+            if c.get('k') == 'call' and c.get('q') == 'osmium::memory::Buffer::push_back' and c.get('recv') is not None and is_pending(f, c['recv']):
+                if f.enclosing_handlers(c['id']):
+                    R.check(dominated_by_flush(f, c['id']), 'writer-full-buffer-flushed-before-retry', '%s#retry' % m.q, f.loc(c['id']),
+                            '%s appends the item again after buffer_is_full without flushing %s first' % (m.q, pend[0]['name']))
+
+    # ---- W3: the pending items go out before the end-of-file marker
+    n_end = 0
+    for (f, m) in bodies:
+        for c in f.all_nodes():
+            if c.get('k') == 'call' and c.get('q') == WE and c['id'] in f.positions():
+                n_end += 1
+                R.check(dominated_by_flush(f, c['id']), 'writer-pending-flushed-before-end', '%s#write_end' % m.q, f.loc(c['id']),
+                        '%s calls write_end() without first handing the pending buffer %s to the output format (the last items are lost)'
+                        % (m.q, pend[0]['name']))
+    if n_end == 0:
+        R.broken('%s: no call to OutputFormat::write_end found' % W)
+
+    # ---- W4: flush() flushes; ensure_cleanup runs the function it is given
+    for m in methods:
+        if m.q == W + '::flush':
+            ok = False
+            for f in [m] + fb.lambdas_in(m):
+                ids = set(flush_sites(f))
+                if ids and path_search(f, f.entry, lambda x: isinstance(x, tuple) and x[0] == 'exit', lambda x: x in ids, from_block_start=True) is None:
+                    ok = True
+            R.check(ok, 'writer-flush-entry-points', m.q, m.site, 'flush() must hand the pending buffer to the output format on every path')
+        if m.q == W + '::ensure_cleanup' and m.params:
+            d0 = m.params[0]['d']
+            calls = {c['id'] for c in m.all_nodes() if c.get('k') == 'call' and c.get('recv') is not None
+                     and (m.root_var(c['recv']) or (None, None))[:2] == ('var', d0)}
+            calls |= {c['id'] for c in m.all_nodes() if c.get('k') == 'call' and c.get('callee') is not None
+                      and (m.root_var(c['callee']) or (None, None))[:2] == ('var', d0)}
+            w = path_search(m, m.entry, lambda x: isinstance(x, tuple) and x[0] == 'exit',
+                            lambda x: x in calls or m.nodes[x].get('k') == 'throw', from_block_start=True)
+            R.check(bool(calls) and w is None, 'writer-flush-entry-points', m.q, m.site,
+                    'ensure_cleanup must invoke the function it is given on every non-throwing path: %s' % describe_path(m, w))
+
+
 # ================================================================================================ driver
 
 def run(ctx):
